@@ -510,7 +510,9 @@ _OPF = {ast.Add: add, ast.Sub: sub, ast.Mult: mul, ast.Div: truediv, ast.FloorDi
 def np_truediv(x, y):
     """element division of numpy arrays: never raises; x / 0 is inf or nan in numpy -- modelled as an unspecified real
     (z3's total division is unspecified at 0), an over-approximation for everything except nan-specific comparisons"""
-    from .sym import _conc, _is_inf, as_real_term as _art
+    from .sym import _conc, _is_inf, as_real_term as _art, _spv, _spop
+    if _spv(x) or _spv(y):
+        return _spop("div", x, y)
     if _conc(y) and not _is_inf(y) and y == 0:
         if _conc(x):
             with np.errstate(all="ignore"):
@@ -665,6 +667,8 @@ OBJECT_SAFE: set = set()   # id(function) that may run natively on object arrays
 def register_model(fn, model=None):
     def deco(m):
         NP_MODELS[id(fn)] = m
+        if getattr(fn, "__self__", None) is not None and not isinstance(fn.__self__, type(np)):
+            NP_MODELS[(id(fn.__self__), fn.__name__)] = m      # bound methods are re-created on every attribute access
         _KEEP.append(fn)
         return m
     if model is not None:
@@ -689,12 +693,17 @@ def native_call(interp, f, args, kwargs):
         r = sp_native(f, args, kwargs)
         if r is not NotImplemented:
             return r
+        m_ = NP_MODELS.get(id(f))
+        if m_ is not None and getattr(m_, "sp_ok", False):
+            return m_(interp, *args, **kwargs)
         try:
             return f(*args, **kwargs)       # numpy's object protocol calls the SpVal methods
         except Exception as e:
             raise Unsupported(f"analytic mode: {getattr(f, '__name__', f)}: {type(e).__name__}: {e}")
     sym = contains_sym(args) or contains_sym(kwargs)
     m = NP_MODELS.get(id(f))
+    if m is None and getattr(f, "__self__", None) is not None:
+        m = NP_MODELS.get((id(f.__self__), getattr(f, "__name__", "")))
     if m is not None and (sym or getattr(m, "always", False)):
         return m(interp, *args, **kwargs)
     if not sym:
@@ -1508,7 +1517,18 @@ def install_numpy_models(interp):
     register_model(np.multiply, pairwise(mul))
     register_model(np.add, pairwise(add))
     register_model(np.subtract, pairwise(sub))
-    register_model(np.divide, pairwise(truediv))
+    def n_divide(interp, a, b, out=None, where=True, **kw):
+        """np.divide(a, b, where=mask): masked-out positions are left uninitialised by numpy (here: 0.0, always overwritten
+        by the callers in scope); elsewhere numpy's element division (never raises)"""
+        if where is True:
+            return np_binop(interp, ast.Div, a, b)
+        A, B, W = np.broadcast_arrays(to_obj_array(a), to_obj_array(b), np.asarray(where))
+        res = np.empty(A.shape, dtype=object)
+        for idx in np.ndindex(A.shape):
+            res[idx] = np_truediv(A[idx], B[idx]) if bool(W[idx]) else 0.0
+        return _maybe_native(res)
+    n_divide.sp_ok = True
+    register_model(np.divide, _always(n_divide))
     register_model(np.logical_and, pairwise(lambda x, y: And(x, y)))
     register_model(np.logical_or, pairwise(lambda x, y: Or(x, y)))
     register_model(np.logical_not, elementwise(lambda x: Not(x)))
